@@ -976,6 +976,14 @@ fn consume<I: ExactSizeIterator>(
     }
 }
 
+/// the values a fresh iterator yields (collected under `catch`: the code under test may panic)
+fn fresh_values(f: impl FnOnce() -> Vec<String>) -> String {
+    match catch(f) {
+        Ok(v) => join_or_dash(v),
+        Err(k) => panic_str(k),
+    }
+}
+
 fn join_or_dash(v: Vec<String>) -> String {
     if v.is_empty() { "-".to_string() } else { v.join(",") }
 }
@@ -1008,8 +1016,8 @@ fn consume_boxed_u64<const D: usize>(src: BoxT<u64, D>, op: &Op, base: Base) -> 
     };
     if op.m.starts_with("panic") {
         // a fresh iterator over the same source object afterwards
-        let fresh: Vec<String> = TensorIterator::from(&src).map(|v| v.to_string()).collect();
-        format!("{} | fresh={}", s, join_or_dash(fresh))
+        let fresh = fresh_values(|| TensorIterator::from(&src).map(|v| v.to_string()).collect());
+        format!("{} | fresh={}", s, fresh)
     } else {
         s
     }
@@ -1030,8 +1038,8 @@ fn consume_boxed_owned<const D: usize>(src: BoxT<Dc, D>, op: &Op) -> String {
         consume(|| own!(numeric, TensorOwnedIterator, &mut src), op, |v: Dc| v.show())
     };
     if op.m.starts_with("panic") {
-        let fresh: Vec<String> = TensorReferenceIterator::from(&src).map(|d| d.show()).collect();
-        format!("{} | fresh={}", s, join_or_dash(fresh))
+        let fresh = fresh_values(|| TensorReferenceIterator::from(&src).map(|d| d.show()).collect());
+        format!("{} | fresh={}", s, fresh)
     } else {
         s
     }
@@ -1083,11 +1091,11 @@ fn consume_matrix_u64(src: BoxM<u64>, op: &Op, base: Base) -> String {
         _ => return "bad-op".into(),
     };
     if op.m.starts_with("panic") {
-        let fresh: Vec<String> = match op.kind {
+        let fresh = fresh_values(|| match op.kind {
             "rowmajor" => mi::RowMajorIterator::from(&src).map(|v| v.to_string()).collect(),
             _ => mi::ColumnMajorIterator::from(&src).map(|v| v.to_string()).collect(),
-        };
-        format!("{} | fresh={}", s, join_or_dash(fresh))
+        });
+        format!("{} | fresh={}", s, fresh)
     } else {
         s
     }
@@ -1115,11 +1123,11 @@ fn consume_matrix_owned(src: BoxM<Dc>, op: &Op) -> String {
         _ => return "bad-op".into(),
     };
     if op.m.starts_with("panic") {
-        let fresh: Vec<String> = match op.kind {
+        let fresh = fresh_values(|| match op.kind {
             "rowmajor" => mi::RowMajorReferenceIterator::from(&src).map(|d| d.show()).collect(),
             _ => mi::ColumnMajorReferenceIterator::from(&src).map(|d| d.show()).collect(),
-        };
-        format!("{} | fresh={}", s, join_or_dash(fresh))
+        });
+        format!("{} | fresh={}", s, fresh)
     } else {
         s
     }
